@@ -183,7 +183,8 @@ func fsOptClauses() []bqlm.Clause {
 }
 
 func fsOptCase(bi, oi, mi, mj, ni int) []bqlm.Clause {
-	base := bqlm.Namings([]bqlm.Clause{reprBases()[bi]})[0][0]
+	ns := bqlm.Namings([]bqlm.Clause{reprBases()[bi]})
+	base := ns[len(ns)-1][0] // the naming with all bindings distinct
 	names := append(base.Bindings(), "?n0")
 	o := fsOptClauses()[oi]
 	ms := bqlm.ModifiersFor(o)
@@ -200,8 +201,8 @@ func runFullySpecified(r *common.Run, st *stats) {
 	var shapes int64
 	common.ParallelFor(len(opts), func(oi int) {
 		for bi, b := range reprBases() {
-			named := bqlm.Namings([]bqlm.Clause{b})[0]
-			base := named[0]
+			ns := bqlm.Namings([]bqlm.Clause{b})
+			base := ns[len(ns)-1][0] // the naming with all bindings distinct
 			names := append(base.Bindings(), "?n0")
 			ms := bqlm.ModifiersFor(opts[oi])
 			for mi := range ms {
